@@ -540,6 +540,15 @@ def section_errors(docs, results):
             for ln_, col_, m_ in errs:
                 if not m_.startswith(f"({ln_}:{col_ or 0}): ") or ln_ < 1 or ln_ > len(ls) + 1:
                     bad.append({"fault": what, "text": t2, "problem": f"message / position malformed: {m_[:60]}"})
+                # an unexpected line is reported at the column of its first non-blank character, and quoted trimmed
+                if ", got '" in m_ and 1 <= ln_ <= len(ls):
+                    src = ls[ln_ - 1].rstrip("\r")
+                    want_col = len(src) - len(src.lstrip()) + 1
+                    if col_ != want_col:
+                        bad.append({"fault": what, "text": t2,
+                                    "problem": f"unexpected line {ln_} reported at column {col_}, its first non-blank character is at {want_col}"})
+                    if not m_.endswith(f", got '{src.strip()}'"):
+                        bad.append({"fault": what, "text": t2, "problem": f"unexpected line not quoted trimmed: {m_[-60:]}"})
             st3, e3 = fresh_parse(t2, stop=True)
             if st3 != "errors" or e3[0] != errs[0]:
                 bad.append({"fault": what, "text": t2, "problem": f"stop-at-first-error raised {e3[:1]} but collecting lists {errs[:1]} first"})
